@@ -223,6 +223,12 @@ impl<'a> BTreeIterator<'a> {
 				},
 				LastKey::Start => {
 					iter.seek(SeekTo::Include(&[]), tree, col, log)?;
+					if direction == IterDirection::Backward {
+						// Nothing precedes the start position, not even the empty key
+						// the inclusive seek above may have landed on.
+						iter.record_id = record_id;
+						return Ok(None)
+					}
 				},
 				LastKey::End => {
 					iter.seek_to_last(tree, col, log)?;
